@@ -188,6 +188,24 @@ func rulesC07(c *Ctx) {
 		}
 	}
 
+	// ---- R7 the view remembers no answers: read operations do not write the cache object ----
+	// (a memoised listing/answer must be invalidated by every operation that can change it, directly or
+	// through a parent or child path; nothing but recomputing from buffer + remote + journals is safe)
+	{
+		n7 := 0
+		for _, mn := range []string{"ReadDir", "IsExist", "IsFile", "IsDir", "Reader", "ReadFile", "Lstat"} {
+			f := methods[mn]
+			if f == nil {
+				continue
+			}
+			n7++
+			bad, pos := writesOwnPackageState(f, cachePkg)
+			c.Check(bad == "", "R7", "fscache.(Cache)."+mn+" keeps no memo", orPos(pos, f.Pos()), "the read operation writes nothing into the cache object",
+				bad+" during a read operation — an answer remembered in the cache object goes stale when a later operation changes it by way of another path (a nested create, a remove of an ancestor, a child view)")
+		}
+		c.Floor("R7", n7, 5)
+	}
+
 	// ---- R2 listing merges both sides by name ------------------------------------------------------
 	if f := methods["ReadDir"]; f == nil {
 		c.Bad("R2", "fscache.(Cache).ReadDir", 0, "anchor not found")
@@ -415,7 +433,19 @@ func rulesC07(c *Ctx) {
 				return true
 			}
 		}
-		// hands the remote out as a read source
+		// hands the remote out as a read source - to the cache's own operations: an exported accessor
+		// that nothing in the package calls is the remote itself, not an answer of the cache view
+		if f.Object() != nil && f.Object().Exported() {
+			used := false
+			for _, g := range c.P.PkgFuncs(cachePkg) {
+				if len(CallsTo(g, qualName(f))) > 0 {
+					used = true
+				}
+			}
+			if !used {
+				return false
+			}
+		}
 		for _, r := range returnsOf(f) {
 			for _, v := range r.Results {
 				if _, isIface := v.Type().Underlying().(*types.Interface); isIface && direct(v) {
@@ -462,4 +492,43 @@ func rulesC07(c *Ctx) {
 	} else {
 		c.Bad("R6", "memfs.Dir", 0, "anchor not found")
 	}
+}
+
+// writesOwnPackageState: f, or a function of its package it calls (two levels), stores into a field
+// (or a map held in a field) of an object of a named type of package pkgRel that is not under
+// construction.  Returns a description and the position, or "".
+func writesOwnPackageState(f *ssa.Function, pkgRel string) (string, token.Pos) {
+	bad := ""
+	var pos token.Pos
+	for _, g := range append([]*ssa.Function{f}, reachableSamePkg(f, 2)...) {
+		g := g
+		eachInstr(g, func(_ *ssa.BasicBlock, _ int, in ssa.Instruction) {
+			var target ssa.Value
+			switch x := in.(type) {
+			case *ssa.Store:
+				target = x.Addr
+			case *ssa.MapUpdate:
+				target = x.Map
+			case *ssa.Call:
+				if b, ok := x.Call.Value.(*ssa.Builtin); ok && b.Name() == "delete" && len(x.Call.Args) > 0 {
+					target = x.Call.Args[0]
+				}
+			}
+			if target == nil {
+				return
+			}
+			root, path := fieldPathOf(target)
+			if len(path) == 0 {
+				return
+			}
+			if pt, ok := root.Type().(*types.Pointer); ok {
+				if nt, ok := pt.Elem().(*types.Named); ok && nt.Obj().Pkg() != nil && strings.HasSuffix(nt.Obj().Pkg().Path(), pkgRel) {
+					if _, fresh := root.(*ssa.Alloc); !fresh {
+						bad, pos = fname(g)+" writes "+nt.Obj().Name()+"."+strings.Join(path, "."), in.Pos()
+					}
+				}
+			}
+		})
+	}
+	return bad, pos
 }
